@@ -250,6 +250,56 @@ func mergeEvent(id string, texts []string) (rec map[string]any, err error) {
 	return map[string]any{"ev": "merge", "id": id, "in": inAbs, "out": outAbs, "out2": out2Abs, "texts": texts}, nil
 }
 
+// latticeLevels: per base level (every field absent / at its first / at its second value) the base vector followed
+// by its single-field variants.
+func latticeLevels(sc *kindSchema) [][][]int {
+	skip := map[string]bool{"Comment": true, "FileInherit": true, "NoNewPrivs": true, "Optional": true}
+	res := [][][]int{}
+	for level := 0; level < 3; level++ {
+		base := make([]int, len(sc.Fields))
+		for i, fc := range sc.Fields {
+			if !skip[fc.Field] {
+				base[i] = min(level, len(fc.Choices)-1)
+			}
+		}
+		vecs := [][]int{append([]int{}, base...)}
+		seen := map[string]bool{fmt.Sprint(base): true}
+		for i, fc := range sc.Fields {
+			if skip[fc.Field] {
+				continue
+			}
+			for c := range fc.Choices {
+				v := append([]int{}, base...)
+				v[i] = c
+				if k := fmt.Sprint(v); !seen[k] {
+					seen[k] = true
+					vecs = append(vecs, v)
+				}
+			}
+		}
+		res = append(res, vecs)
+	}
+	return res
+}
+
+// structMergeEvent: Merge on rules built as structs (fresh ones: Merge works in place).
+func structMergeEvent(id string, in aa.Rules) (rec map[string]any, err error) {
+	defer func() {
+		if p := recover(); p != nil {
+			err = fmt.Errorf("panic in Merge of %s: %v", id, p)
+		}
+	}()
+	inAbs := abstractRules(in)
+	texts := []string{}
+	for _, x := range in {
+		texts = append(texts, strings.TrimSpace(x.String()))
+	}
+	out := in.Merge()
+	outAbs := abstractRules(out)
+	out2Abs := abstractRules(out.Merge())
+	return map[string]any{"ev": "merge", "id": id, "in": inAbs, "out": outAbs, "out2": out2Abs, "texts": texts}, nil
+}
+
 func checkC10(e *Env, r *Report) {
 	mlen := "3"
 	if e.Tier == "thorough" {
@@ -323,6 +373,39 @@ func checkC10(e *Env, r *Report) {
 			}
 		}
 	}
+	// the field lattice of every kind (as in C11): two rules that differ in one or two fields only - also the same
+	// value standing in two different fields (a name owned and the same name as peer) - merged in both orders
+	nLattice := 0
+	for si := range ruleSchemas {
+		sc := &ruleSchemas[si]
+		if sc.Kind == "comment" || sc.Kind == "include" || sc.Kind == "all" {
+			continue
+		}
+		for level, vecs := range latticeLevels(sc) {
+			for i := range vecs {
+				for j := range vecs {
+					// (quick: every pair of the level where all other fields are absent, a seeded half of the other levels)
+					if i == j || (e.Tier != "thorough" && level > 0 && (i+j+level+int(e.Seed))%2 != 0 && i != 0 && j != 0) {
+						continue
+					}
+					a, errA := buildRule(sc, vecs[i])
+					b, errB := buildRule(sc, vecs[j])
+					if errA != nil || errB != nil {
+						continue
+					}
+					id := fmt.Sprintf("lattice:%s%v | %v", sc.Kind, vecs[i], vecs[j])
+					rec, err := structMergeEvent(id, aa.Rules{a, b})
+					if err != nil {
+						r.Violate("C10|crash|"+id, err.Error(), map[string]any{"id": id})
+						continue
+					}
+					recs = append(recs, rec)
+					nLattice++
+				}
+			}
+		}
+	}
+	r.Coverage["lattice_pairs_merged"] = nLattice
 	// the complete value tables of the real code (aa.VerifTables): every value of every list-valued
 	// field merged with its neighbour in the table, and with the first and the last one
 	nTable := 0
@@ -649,6 +732,93 @@ func checkC11(e *Env, r *Report) {
 			}
 		}
 		recs = append(recs, map[string]any{"ev": "cmp", "id": "cmp:lattice:" + sc.Kind, "kind": sc.Kind, "texts": texts, "m": m, "same": same})
+	}
+	// the rules of a preamble (built as structs): variables that refer to one another in and against the order of
+	// their names, abi, alias, includes - complete matrix, and every triple sorted in all six orders
+	{
+		mk := []func() aa.Rule{
+			func() aa.Rule {
+				return &aa.Variable{Name: "cache_dirs", Define: true, Values: []string{"@{user_cache_dirs}/foo"}}
+			},
+			func() aa.Rule {
+				return &aa.Variable{Name: "lib_dirs", Define: true, Values: []string{"/opt/foo", "@{lib}/foo"}}
+			},
+			func() aa.Rule {
+				return &aa.Variable{Name: "user_cache_dirs", Define: true, Values: []string{"@{HOME}/.cache"}}
+			},
+			func() aa.Rule { return &aa.Variable{Name: "name", Define: true, Values: []string{"foo"}} },
+			func() aa.Rule {
+				return &aa.Variable{Name: "exec_path", Define: true, Values: []string{"@{lib_dirs}/@{name}", "@{bin}/@{name}"}}
+			},
+			func() aa.Rule {
+				return &aa.Variable{Name: "exec_path", Define: false, Values: []string{"/opt/@{name}/bin"}}
+			},
+			func() aa.Rule { return &aa.Variable{Name: "bin", Define: false, Values: []string{"@{cache_dirs}/bin"}} },
+			func() aa.Rule { return &aa.Variable{Name: "Name", Define: true, Values: []string{"Foo"}} },
+			func() aa.Rule { return &aa.Abi{Path: "abi/4.0", IsMagic: true} },
+			func() aa.Rule { return &aa.Abi{Path: "abi/3.0", IsMagic: true} },
+			func() aa.Rule { return &aa.Alias{Path: "/usr/", RewrittenPath: "/User/"} },
+			func() aa.Rule { return &aa.Alias{Path: "/usr/", RewrittenPath: "/mnt/usr/"} },
+			func() aa.Rule { return &aa.Include{Path: "tunables/global", IsMagic: true} },
+			func() aa.Rule { return &aa.Include{Path: "tunables/global", IsMagic: true, IfExists: true} },
+		}
+		n := len(mk)
+		rules := aa.Rules{}
+		texts := []string{}
+		for _, f := range mk {
+			x := f()
+			rules = append(rules, x)
+			texts = append(texts, strings.TrimSpace(x.String()))
+		}
+		abs := abstractRules(rules)
+		// (Compare is only defined between rules of one kind: one matrix per kind)
+		byKind := map[string][]int{}
+		for i, x := range rules {
+			byKind[string(x.Kind())] = append(byKind[string(x.Kind())], i)
+		}
+		for kind, ix := range byKind {
+			kn := len(ix)
+			m := make([][]int, kn)
+			same := make([][]bool, kn)
+			kt := []string{}
+			for a := 0; a < kn; a++ {
+				m[a] = make([]int, kn)
+				same[a] = make([]bool, kn)
+				kt = append(kt, texts[ix[a]])
+				for b := 0; b < kn; b++ {
+					m[a][b] = sgn(rules[ix[a]].Compare(rules[ix[b]]))
+					same[a][b] = reflect.DeepEqual(abs[ix[a]], abs[ix[b]])
+				}
+			}
+			recs = append(recs, map[string]any{"ev": "cmp", "id": "cmp:preamble:" + kind, "kind": kind, "texts": kt, "m": m, "same": same})
+		}
+		for i := 0; i < n; i++ {
+			for j := i + 1; j < n; j++ {
+				for k := j + 1; k < n; k++ {
+					if rules[i].Kind() != rules[j].Kind() || rules[j].Kind() != rules[k].Kind() {
+						continue
+					}
+					if e.Tier != "thorough" && (i+j*3+k*5+int(e.Seed))%2 != 0 && !(i < 3 && j < 3 && k < 3) {
+						continue
+					}
+					idx := []int{i, j, k}
+					results, resorted := [][]string{}, [][]string{}
+					for _, p := range permutations(3) {
+						rs := aa.Rules{mk[idx[p[0]]](), mk[idx[p[1]]](), mk[idx[p[2]]]()}.Sort()
+						out, out2 := []string{}, []string{}
+						for _, x := range rs {
+							out = append(out, ruleIdentity(x))
+						}
+						for _, x := range rs.Sort() {
+							out2 = append(out2, ruleIdentity(x))
+						}
+						results = append(results, out)
+						resorted = append(resorted, out2)
+					}
+					recs = append(recs, map[string]any{"ev": "sort", "id": "sort:preamble:" + texts[i] + " | " + texts[j] + " | " + texts[k], "results": results, "resorted": resorted})
+				}
+			}
+		}
 	}
 	// sub-profiles (built as structs: name, attachments, xattrs map, flags): comparing twice must give the
 	// same sign (a map is walked in random order), a profile equals itself
